@@ -99,11 +99,10 @@ func GetKeyFromPassword(passwd string, cname types.PrincipalName, realm string, 
 			if len(eti) < 1 {
 				return key, et, errors.New("PA-ETYPE-INFO in PA Data contains no entries")
 			}
-			if etypeID != eti[0].EType {
-				et, err = GetEtype(eti[0].EType)
-				if err != nil {
-					return key, et, fmt.Errorf("error getting encryption type: %v", err)
-				}
+			// The etype of the hint replaces whatever an earlier, lower precedence hint selected
+			et, err = GetEtype(eti[0].EType)
+			if err != nil {
+				return key, et, fmt.Errorf("error getting encryption type: %v", err)
 			}
 			salt = string(eti[0].Salt)
 		case patype.PA_ETYPE_INFO2:
@@ -119,11 +118,10 @@ func GetKeyFromPassword(passwd string, cname types.PrincipalName, realm string, 
 			if len(et2) < 1 {
 				return key, et, errors.New("PA-ETYPE-INFO2 in PA Data contains no entries")
 			}
-			if etypeID != et2[0].EType {
-				et, err = GetEtype(et2[0].EType)
-				if err != nil {
-					return key, et, fmt.Errorf("error getting encryption type: %v", err)
-				}
+			// The etype of the hint replaces whatever an earlier, lower precedence hint selected
+			et, err = GetEtype(et2[0].EType)
+			if err != nil {
+				return key, et, fmt.Errorf("error getting encryption type: %v", err)
 			}
 			if len(et2[0].S2KParams) == 4 {
 				sk2p = hex.EncodeToString(et2[0].S2KParams)
